@@ -127,6 +127,40 @@ self._initialise_integrator()
 return self""",
 }
 
+_INIT_JAC = """jac_fn = None
+if self.use_jacobian:
+    try:
+        _jac = to_symbolic_model(self.model).jacobian()
+        _par_names = self.model.get_parameter_names()
+        _jac_fn = lambdify(('time', self.model.get_variable_names(), _par_names), _jac)
+
+        def _par_values() -> list[float]:
+            if (cache := self.model._cache) is None:
+                cache = self.model._create_cache()
+            return [cache.all_parameter_values[k] for k in _par_names]
+        jac_fn = lambda t, x: _jac_fn(@T@, x, _par_values())
+    except Exception as e:
+        _LOGGER.warning(str(e), stacklevel=2)
+y0 = self.y0
+self.integrator = self._integrator_type(@RHS@, tuple((y0[k] for k in self.model.get_variable_names())), jac_fn)"""
+_INIT_SHAPES = {
+    # the model itself is the right-hand side: after an override it sees the integrator's shifted time
+    "false": _INIT_JAC.replace("@T@", "t").replace("@RHS@", "self.model"),
+    # the model (and its Jacobian) are handed absolute time
+    "true": "t_shift = 0.0 if self._time_shift is None else self._time_shift\n"
+    "rhs: Rhs = self.model if self._time_shift is None else lambda t, y: self.model(t + t_shift, y)\n"
+    + _INIT_JAC.replace("@T@", "t + t_shift").replace("@RHS@", "rhs"),
+}
+
+_MAKE_PROTOCOL = """data = {}
+t0 = pd.Timedelta(0)
+for step, pars in steps:
+    t0 += pd.Timedelta(seconds=step)
+    data[t0] = pars
+protocol = pd.DataFrame(data).T
+protocol.index.name = 'Timedelta'
+return protocol"""
+
 _PRIOR = "0.0 if (variables := self.variables) is None else variables[-1].index[-1]"
 _ERRGUARD = "if len(self._errors) > 0:\n    return self"
 
@@ -212,7 +246,7 @@ def extract_facts() -> dict[str, str]:
         "tc_keep": "CmpUnknown", "skip_sim": "false", "skip_tc": "false", "skip_ss": "true",
         "ss_resets": "false", "ss_advances": "true", "ss_step": "0", "ss_max": "0",
         "ptc_cmp": "CmpUnknown", "win_lo": "CmpUnknown", "win_hi": "CmpUnknown", "updvar_keeps": "false",
-        "shapes_ok": "false",
+        "abs_time": "false", "shapes_ok": "false",
     }  # fail-closed defaults: none of them equals the pinned value
     try:
         sim_tree = ast.parse((common.REPO / "src/mxlpy/simulator.py").read_text())
@@ -226,6 +260,23 @@ def extract_facts() -> dict[str, str]:
     for flag, shape in _UPDVAR_SHAPES.items():
         if uv == shape:
             facts["updvar_keeps"] = flag
+            break
+    else:
+        shapes_ok = False
+
+    # make_protocol (module-level function of src/mxlpy/__init__.py): cumulative ends
+    try:
+        init_tree = ast.parse((common.REPO / "src/mxlpy/__init__.py").read_text())
+        mp = next((n for n in init_tree.body if isinstance(n, ast.FunctionDef) and n.name == "make_protocol"), None)
+    except (OSError, SyntaxError):
+        mp = None
+    if _norm(mp) != _MAKE_PROTOCOL:
+        shapes_ok = False
+
+    ii = _norm(_method(sim_tree, "Simulator", "_initialise_integrator"))
+    for flag, shape in _INIT_SHAPES.items():
+        if ii == shape:
+            facts["abs_time"] = flag
             break
     else:
         shapes_ok = False
@@ -367,7 +418,7 @@ return self"""
 
 FACT_ORDER = [
     "sim_frame", "sim_cmp", "tc_frame", "tc_cmp", "tc_keep", "skip_sim", "skip_tc", "skip_ss",
-    "ss_resets", "ss_advances", "ss_step", "ss_max", "ptc_cmp", "win_lo", "win_hi", "updvar_keeps", "shapes_ok",
+    "ss_resets", "ss_advances", "ss_step", "ss_max", "ptc_cmp", "win_lo", "win_hi", "updvar_keeps", "abs_time", "shapes_ok",
 ]
 
 
@@ -458,10 +509,21 @@ def _cur_pars() -> dict[str, Fraction]:
     return {k: common.to_fraction(v) for k, v in _CUR["model"].get_parameter_values().items()}
 
 
+def _model_time_offset(fun) -> Fraction:  # noqa: ANN001
+    """model time minus integrator time, read off the right-hand side the integrator was GIVEN:
+    x' = k*y + a*time, so fun(0, (0, 0))[0] = a * (model time at integrator time 0).  Exact on dyadic inputs;
+    irrelevant (0) for an autonomous system (a = 0)."""
+    a = _cur_pars()["a"]
+    if a == 0:
+        return F(0)
+    return common.to_fraction(float(fun(0.0, [0.0, 0.0])[0])) / a
+
+
 class _ExactOde:
     def __init__(self, f, jac=None) -> None:  # noqa: ANN001, ARG002
         self.t = F(0)
         self.y: list[Fraction] = []
+        self.f = f
 
     def set_integrator(self, name=None, **kw):  # noqa: ANN001, ANN003, ARG002
         return self
@@ -475,7 +537,7 @@ class _ExactOde:
         import numpy as np
 
         t = common.to_fraction(t)
-        self.y = exact_flow(_cur_pars(), self.t, self.y, t - self.t)
+        self.y = exact_flow(_cur_pars(), self.t + _model_time_offset(self.f), self.y, t - self.t)
         self.t = t
         return np.array([float(v) for v in self.y], dtype=float)
 
@@ -486,7 +548,7 @@ class ExactSpi:
     ode = _ExactOde
 
     @staticmethod
-    def solve_ivp(fun, y0, t_span, t_eval, jac=None, atol=None, rtol=None, method=None):  # noqa: ANN001, ARG004
+    def solve_ivp(fun, y0, t_span, t_eval, jac=None, atol=None, rtol=None, method=None):  # noqa: ANN001
         import numpy as np
 
         t0, tf = float(t_span[0]), float(t_span[1])
@@ -503,7 +565,8 @@ class ExactSpi:
         if p["boom"] != 0:
             return _Bunch(success=False, t=np.array([]), y=np.empty((len(y0), 0)))
         f0 = common.to_fraction(t0)
-        ys = [exact_flow(p, f0, [common.to_fraction(v) for v in y0], common.to_fraction(t) - f0) for t in te]
+        m0 = f0 + _model_time_offset(fun)  # the time the model sees at the start of the stretch
+        ys = [exact_flow(p, m0, [common.to_fraction(v) for v in y0], common.to_fraction(t) - f0) for t in te]
         for row in ys:
             for v in row:
                 if float(v) != v or abs(v) >= 2**40:
@@ -1021,8 +1084,6 @@ def classify(v: dict, mode: str) -> str | None:
     tags = set(v["tags"])
     if "steady" in tags:
         return "steady-state-resets-integrator"
-    if "nonautonomous" in tags and "override-after-simulation" in tags:
-        return "override-restarts-model-time"
     return None
 
 
@@ -1263,7 +1324,7 @@ ASSUMPTIONS = [
     "solve_ivp's argument contract (t_eval inside t_span and strictly increasing; empty span yields no rows) is modelled "
     "explicitly in Integrator.solve_ivp and validated against the real scipy in scipy mode",
     "fact extractor harness/c04_sim.py::extract_facts (fail-closed ast matcher; whole-function shape pins for "
-    "_handle_simulation_results, update_variable(s), clear_results, simulate_protocol, simulate_protocol_time_course, "
+    "_handle_simulation_results, _initialise_integrator, update_variable(s), clear_results, simulate_protocol, simulate_protocol_time_course, make_protocol, "
     "Scipy.reset/integrate/integrate_time_course/integrate_to_steady_state)",
     "pandas/NumPy containers are modelled as lists; np.linspace and float arithmetic are exact on the dyadic inputs used "
     "(multiples of 1/8, steps in {1,2,4,8}); pd.Timedelta nanosecond rounding and binary rounding of non-dyadic times are outside the Q model",
@@ -1289,11 +1350,16 @@ CORPUS_C04: list[dict] = [
     {"mode": "exact", "y0": _Y0, "p0": _P0, "ops": [["sim", "2", 1], ["updvar", {"x": "3"}], ["updvar", {"y": "0"}], ["sim", "3", 4], ["updvar", {"x": "1"}], ["tc", ["3", "7/2", "4"]]]},
 ]
 
+# the shifted-model-time witnesses (fixes/C04-override-time.diff): a rate law reading `time` after an override
+CORPUS_C04 += [
+    {"mode": "exact", "y0": ["0", "0"], "p0": ["0", "0", "1", "0"], "ops": [["sim", "2", 1], ["updvar", {"x": "2"}], ["sim", "4", 1]]},
+    {"mode": "exact", "y0": _Y0, "p0": ["1", "1/2", "1/2", "0"],
+     "ops": [["tc", ["1", "3"]], ["updvar", {"y": "0"}], ["tc", ["4", "6"]], ["updvar", {"x": "1"}], ["updvar", {"y": "1"}], ["sim", "8", 2]]},
+]
+
 WITNESS_STEADY = {"mode": "exact", "y0": ["1", "0"], "p0": ["1", "0", "0", "0"],
                   "ops": [["sim", "500", 2], ["steady"], ["sim", "800", 2]]}
-WITNESS_NONAUT = {"mode": "exact", "y0": ["0", "0"], "p0": ["0", "0", "1", "0"],
-                  "ops": [["sim", "2", 1], ["updvar", {"x": "2"}], ["sim", "4", 1]]}
-WITNESSES = {"steady-state-resets-integrator": WITNESS_STEADY, "override-restarts-model-time": WITNESS_NONAUT}
+WITNESSES = {"steady-state-resets-integrator": WITNESS_STEADY}
 
 
 def enum_histories(rng) -> list[dict]:  # noqa: ANN001, ARG001
